@@ -224,16 +224,39 @@ def isFinal (s : St) : Bool := s.sp == .done && s.hp == .done && s.wp == .done
 def isQuiescent (s : St) : Bool :=
   s.sp == .idle && s.hp == .top && s.wp == .top && s.nb == 0 && s.ntx == 0 && s.nt == 0
 
-/-- breadth-first exploration with fuel; returns the stuck states found (no core step, not final, not quiescent) -/
-def explore (sh : Shape) (c : Cfg) : Nat → List St → List St → List St → List St
+/-- between a completed suspend() and the matching resume() -/
+def window : WPc → Bool
+  | .impCommit | .impRes _ | .rem1Commit | .rem1Res _ | .rem2Commit | .rem2Res _ => true
+  | _ => false
+
+/-- breadth-first exploration with fuel, using only the transitions `allow` admits; returns the stuck
+    states found (no core step enabled, not final, not quiescent) -/
+def explore (sh : Shape) (c : Cfg) (allow : Label → St → Bool) : Nat → List St → List St → List St → List St
   | 0, _, _, stuck => stuck
   | fuel + 1, frontier, seen, stuck =>
     match frontier with
     | [] => stuck
     | s :: rest =>
       let stuck := if (nextCore sh c s).isEmpty && !isFinal s && !isQuiescent s then s :: stuck else stuck
-      let succ := (next sh c s).filter (fun t => !(seen.contains t) && !(rest.contains t) && t != s)
-      explore sh c fuel (rest ++ succ.eraseDups) (s :: seen) stuck
+      let succ := (Label.all.filter (fun l => allow l s)).filterMap (fun l => fire sh c l s)
+      let succ := succ.filter (fun t => !(seen.contains t) && !(rest.contains t) && t != s)
+      explore sh c allow fuel (rest ++ succ.eraseDups) (s :: seen) stuck
+
+/-- the experiment of the harness (go/cmd/harness/eng_proto.go `stopat`): one task of the given kind has been
+    queued through the API (`task` = "remove" | "import" | "none"), `nb` block notifications are queued, and
+    the stop request is placed as `place` says ("now": anywhere; "worker": while the worker is inside a
+    database step; "handler": while the follower is inside a block). Can the system get stuck? -/
+def canHang (sh : Shape) (c : Cfg) (task place : String) (nb : Nat) : Bool :=
+  let allow (l : Label) (s : St) : Bool :=
+    match l with
+    | .eStop => if place = "worker" then window s.wp else if place = "handler" then s.hp == .blk else true
+    | .eBlk | .eTx | .aCheck | .aPush | .aPushDrop => false
+    | .wTakeImp => task == "import"
+    | .wTakeRem => task == "remove"
+    | .wTakeSkip => false
+    | _ => true
+  let s0 : St := { nt := if task = "none" then 0 else 1, nb := nb }
+  !(explore sh c allow 4000 [s0] [] []).isEmpty
 
 /-- ranking function used by stop_terminates -/
 def rankH : HPc → Nat
